@@ -24,7 +24,9 @@ fn extrapolate_body(s: &mut Src, beyond: bool) {
     let d = any_prefix2(s);
     let orig = mk_curve(&d, 2);
     let mut ext = mk_curve(&d, 2);
-    let h = s.bits(7);
+    // horizon up to 3 beyond the prefix (with bursts, d0 = 0, the vector grows by one
+    // time unit every other entry: more would need a larger unwind bound)
+    let h = d[1] + s.bits(3);
     ext.extrapolate(Duration::from(h));
     // values inside the original prefix are unchanged
     assert!(md(&ext, 2) == d[0] && md(&ext, 3) == d[1]);
@@ -42,13 +44,13 @@ harness!(c13_extrapolate_beyond_b, 12, |s| { extrapolate_body(s, true); });
 harness!(c13_extrapolate_conservative, 12, |s| {
     let d = any_prefix2(s);
     let mut ext = mk_curve(&d, 2);
-    let h = s.bits(7);
+    let h = d[1] + s.bits(3);
     ext.extrapolate(Duration::from(h));
     let ev = any_dmin_events(s, 5, &d, 2, 7);
     let start = s.bits(31);
     let len = s.bits(31);
     assert!(ev.count_in(start, len) <= na(&ext, len));
-    cover!(ev.count_in(start, len) == 5 && h >= 5, "5 events in one window, horizon >= 5");
+    cover!(ev.count_in(start, len) == 5 && h >= d[1] + 2, "5 events in one window, extrapolated by 2+");
 });
 
 harness!(c13_extrapolate_steps, 12, |s| {
